@@ -32,8 +32,9 @@ def _run_shard(task):
     prop, part_name, tier, seed, shard, nshards, known = task
     t0 = time.time()
     try:
-        core.load_lib()
         mod = _module(prop)
+        if getattr(mod, "NEEDS_LIB", True):
+            core.load_lib()
         part = next(p for p in mod.PARTS if p.name == part_name)
     except BaseException:
         return {"part": part_name, "shard": shard, "error": traceback.format_exc(), "wall": 0.0}
@@ -97,8 +98,9 @@ def do_replay(prop: str, path: str) -> int:
     if payload.get("property") not in (None, prop):
         print(f"replay file is for {payload.get('property')}, not {prop}", file=sys.stderr)
         return 2
-    core.load_lib()
     mod = _module(prop)
+    if getattr(mod, "NEEDS_LIB", True):
+        core.load_lib()
     part = next((p for p in mod.PARTS if p.name == payload["part"]), None)
     if part is None:
         print(f"unknown part {payload['part']}", file=sys.stderr)
@@ -355,7 +357,8 @@ def main(argv=None) -> int:
 def _regress_entry(arg):
     prop, known = arg
     try:
-        core.load_lib()
+        if getattr(_module(prop), "NEEDS_LIB", True):
+            core.load_lib()
         return run_regress(prop, _module(prop), known)
     except BaseException:  # noqa: BLE001
         return {"error": traceback.format_exc()}
